@@ -67,6 +67,7 @@ class UFunc:
 
     def __init__(self, name, fn, signature=None, nin=2):
         self.name, self.fn, self.signature, self.nin = name, fn, signature, nin
+        self.nout = 2 if name in ("divmod", "modf", "frexp") else 1
         self.__name__ = name
 
     def _check_plain(self, args):
@@ -76,8 +77,54 @@ class UFunc:
     def __call__(self, *args, **kwargs):
         self._check_plain(args)
         kw = {k: v for k, v in kwargs.items() if v is not None}
+        out, where = kw.pop("out", None), kw.pop("where", None)
         if kw:
             raise AnalysisError(f"ufunc keyword arguments {sorted(kw)} are not modelled")
+        if out is not None or where is not None:
+            # numpy: the operands, the mask and the output broadcast together; where the mask is False the output keeps its value
+            self._check_plain([x for x in (out if isinstance(out, tuple) else (out,)) if x is not None] + ([where] if where is not None else []))
+            if self.nout != 1 or self.name == "matmul":
+                raise AnalysisError("out= / where= of a multi-output or generalised ufunc is not modelled")
+            try:
+                res = self(*args)
+            except XArrayError as e:
+                if "broadcast" in str(e):
+                    raise XRaise("ValueError", f"operands could not be broadcast together ({e})")
+                raise
+            o = out[0] if isinstance(out, tuple) else out
+            if o is None:
+                raise AnalysisError("where= without out= leaves uninitialised entries: not modelled")
+            R = res if isinstance(res, XArray) else XArray((), [res])
+            if where is None:
+                Rb = R.broadcast_to(o.shape)
+                for k in range(o.size):
+                    o.data[k] = Rb.data[k]
+                return o
+            W = where if isinstance(where, XArray) else XArray((), [where])
+            try:
+                sh = XArray._bshape(XArray._bshape(R.shape, W.shape), o.shape)
+            except XArrayError as e:
+                raise XRaise("ValueError", f"operands could not be broadcast together ({e})")
+            if sh != o.shape:
+                raise XRaise("ValueError", f"non-broadcastable output operand with shape {o.shape} doesn't match the broadcast shape {sh}")
+            try:
+                Rb, Wb = R.broadcast_to(sh), W.broadcast_to(sh)
+            except XArrayError as e:
+                raise XRaise("ValueError", f"operands could not be broadcast together ({e})")
+            for k in range(o.size):
+                if not isinstance(Wb.data[k], bool):
+                    raise AnalysisError("where= mask with undecided entries")
+                if Wb.data[k]:
+                    o.data[k] = Rb.data[k]
+            return o
+        if self.name == "divmod":
+            a, b = (XArray.from_nested(x) if isinstance(x, (list, tuple)) else x for x in args)
+            fl = lambda x, y: (exact(x) // exact(y))
+            md = lambda x, y: (exact(x) % exact(y))
+            two = []
+            for f_ in (fl, md):
+                two.append(XArray._binop(a, b, f_) if isinstance(a, XArray) else (XArray._binop(b, a, f_, True) if isinstance(b, XArray) else f_(a, b)))
+            return tuple(two)
         if self.name == "matmul":
             return x_matmul(XArray.from_nested(args[0]), XArray.from_nested(args[1]))
         a, b = args
@@ -91,10 +138,15 @@ class UFunc:
             return XArray._binop(b, a, self.fn, True)
         return self.fn(exact(a), exact(b))
 
-    def reduce(self, a, axis=0, **kwargs):
+    def reduce(self, a, axis=0, keepdims=False, **kwargs):
         self._check_plain([a])
         a = XArray.from_nested(a)
-        return reduce_plain(a, self.fn, axis)
+        res = reduce_plain(a, self.fn, axis)
+        if keepdims:
+            axes = tuple(range(a.ndim)) if axis is None else tuple(int(x) % a.ndim for x in (axis if isinstance(axis, tuple) else (axis,)))
+            shape = tuple(1 if i in axes else a.shape[i] for i in range(a.ndim))
+            res = XArray(shape, list(res.data) if isinstance(res, XArray) else [res])
+        return res
 
     def __repr__(self):
         return f"<ufunc {self.name}>"
@@ -342,6 +394,23 @@ class Model:
                 for i in axes:
                     n *= a.shape[int(i) % a.ndim]
                 return tot * Q(1, n)
+            if name == "var":
+                # numpy/_core/_methods.py::_var, the part that matters for a subclass: the mean is taken with keepdims through
+                # umr_sum (= np.add.reduce, dispatched), divided in place, SUBTRACTED FROM THE ARRAY AS IT WAS GIVEN (a subclass
+                # instance: the subtraction is dispatched to its __array_ufunc__), squared in place and summed again
+                axis = kwargs.get("axis", args[0] if args else None)
+                a0 = XArray.from_nested(plain(selfv))
+                axes = tuple(range(a0.ndim)) if axis is None else (axis if isinstance(axis, tuple) else (axis,))
+                n = 1
+                for i in axes:
+                    n *= a0.shape[int(i) % a0.ndim]
+                isfe = isinstance(selfv, FeV)
+                arrmean = self.ufunc_call("add", (selfv,), method="reduce", axis=axis, keepdims=True) if isfe else UFunc("add", _UF["add"]).reduce(selfv, axis=axis, keepdims=True)
+                arrmean = arrmean * Q(1, n) if not isinstance(arrmean, FeV) else FeV(arrmean.shape, [x * Q(1, n) for x in arrmean.data])
+                x = self.ufunc_call("subtract", (selfv, arrmean)) if (isfe or isinstance(arrmean, FeV)) else XArray._binop(XArray.from_nested(selfv), arrmean, _UF["subtract"])
+                xx = type(x)(x.shape, [v * v for v in x.data]) if isinstance(x, XArray) else x * x
+                tot = self.ufunc_call("add", (xx,), method="reduce", axis=axis) if isinstance(xx, FeV) else UFunc("add", _UF["add"]).reduce(xx, axis=axis)
+                return tot * Q(1, n)
             if name == "ravel":
                 a = selfv
                 r = XArray.ravel(a)
@@ -425,11 +494,16 @@ class Model:
         return NotImplemented
 
     def view(self, a, cls):
+        # a view shares its storage with the array it was taken from (writes through either are seen by both)
         if isinstance(cls, ClassInfo) and cls is self.cls:
-            return FeV(a.shape, a.data)
-        if cls is None or (isinstance(cls, _NpAttr) and cls.path == "ndarray"):
-            return XArray(a.shape, a.data)
-        raise AnalysisError(f"view({cls!r}) is not modelled")
+            v = FeV(a.shape, a.data)
+        elif cls is None or (isinstance(cls, _NpAttr) and cls.path == "ndarray"):
+            v = XArray(a.shape, a.data)
+        else:
+            raise AnalysisError(f"view({cls!r}) is not modelled")
+        v.data = a.data
+        v.dtype = a.dtype
+        return v
 
     def call_hook(self, fn, args, kwargs):
         if self.user_call_hook is not None:
